@@ -3,20 +3,22 @@
 # i2.pat     : (stored pattern, match-case, target) -> Go preparePattern + MatchString vs modelPat (groups A + G composed)
 # i2.match   : NetworkRule.Match evaluated entirely in the model (Ext.pat := modelPat), no Go pattern table
 # i2.newrule : rules.NewRule vs the complete parser model (groups D, E, H composed), full record dump;
-#              Go-supplied tables: netip.ParseAddr / ParsePrefix and the shortcut of /regex/ rules only
+#              Go-supplied tables: netip.ParseAddr / ParsePrefix only (regex shortcut from modelRegexpShortcut)
 _PAT = fam("i2.pat", 4000, 60000)
 _MATCH = fam("i2.match", 3000, 50000)
 _NEWRULE = fam("i2.newrule", 4000, 60000)
 # i2.textmatch : rule TEXT + request -> Go NewNetworkRule + Match vs complete parser model + Match over modelPat vs
 #                specMatchNoShortcut (modifiers as set membership + documented mask language, no shortcut test)
 _TEXTMATCH = fam("i2.textmatch", 3000, 50000)
+# i2.reshortcut : findRegexpShortcut(/regex/) vs the text-level model (heuristics + literal merging + factoring of Go's parser)
+_RESHORTCUT = fam("i2.reshortcut", 6000, 100000)
 
 PROPS = {
     "C03": {"families": [_PAT, _MATCH, _TEXTMATCH]},
     "C04": {"families": [_PAT, _MATCH, _NEWRULE, _TEXTMATCH]},
-    "C05": {"families": [_MATCH, _TEXTMATCH]},
+    "C05": {"families": [_MATCH, _TEXTMATCH, _RESHORTCUT]},
     "C10": {"families": [_NEWRULE]},
-    "C12": {"families": [_NEWRULE, _TEXTMATCH]},
+    "C12": {"families": [_NEWRULE, _TEXTMATCH, _RESHORTCUT]},
     "C18": {"families": [_NEWRULE]},
 }
 
@@ -60,7 +62,8 @@ _NOTE = {
     "C10": " i2.newrule (integration): $dnsrewrite values parsed inside the complete NewRule model (group H's loadDNSRewrite "
            "instantiated in group E's option parser), full record dump.",
     "C12": " i2.newrule (integration): rules.NewRule vs the complete parser model (TrimSpace, dispatch, hosts, cosmetic, network, "
-           "every modifier); Go-supplied tables only for netip and the shortcut of /regex/ rules.",
+           "every modifier, the shortcut of /regex/ rules from the text-level model of findRegexpShortcut, itself checked by i2.reshortcut); "
+           "Go-supplied tables only for netip.",
     "C18": " i2.newrule (integration): hosts lines through the complete NewRule model (group H's NewHostRule over group E's "
            "IsDomainName, group D's TrimSpace), full H record dump.",
 }
